@@ -10,6 +10,7 @@ import (
 	"fmt"
 	"math/rand"
 	"os"
+	"runtime"
 	"sort"
 	"sync"
 	"sync/atomic"
@@ -449,6 +450,66 @@ func txmBacklog(seed int64) string {
 	return ""
 }
 
+// txmSimultaneous: several peers deliver the same transaction, which nobody announced, at the same instant
+// (goroutines released together), thousands of times.  Each transaction reaches the processor once.
+func txmSimultaneous(seed int64, rounds int) string {
+	w := newTxmWorld()
+	nodes := []uuid.UUID{w.node("n1"), w.node("n2"), w.node("n3"), w.node("n4")}
+	txs := make([]*wire.MsgTx, rounds)
+	for r := range txs {
+		tx := wire.NewMsgTx(1)
+		tx.LockTime = uint32(300000 + r)
+		txs[r] = tx
+		if r%3 == 0 {
+			w.p.mu.Lock()
+			w.p.relevant[*tx.TxHash()] = true
+			w.p.mu.Unlock()
+		}
+	}
+	for r := 0; r < rounds; r++ {
+		var goFlag, ready int32
+		var wg sync.WaitGroup
+		for _, n := range nodes {
+			wg.Add(1)
+			go func(n uuid.UUID) {
+				defer wg.Done()
+				atomic.AddInt32(&ready, 1)
+				for atomic.LoadInt32(&goFlag) == 0 {
+				}
+				w.m.AddTx(w.ctx, w.intr, n, txs[r])
+			}(n)
+		}
+		for atomic.LoadInt32(&ready) < int32(len(nodes)) {
+			runtime.Gosched()
+		}
+		atomic.StoreInt32(&goFlag, 1)
+		wg.Wait()
+	}
+	w.p.waitTotal(rounds, 5*time.Second)
+	time.Sleep(2 * time.Millisecond)
+	w.finish()
+	w.p.mu.Lock()
+	defer w.p.mu.Unlock()
+	twice, savedWrong := 0, 0
+	for r, tx := range txs {
+		h := *tx.TxHash()
+		if w.p.processed[h] != 1 {
+			twice++
+		}
+		want := 0
+		if r%3 == 0 {
+			want = 1
+		}
+		if w.p.saved[h] != want {
+			savedWrong++
+		}
+	}
+	if twice > 0 || savedWrong > 0 {
+		return fmt.Sprintf("the same unannounced transaction delivered by 4 peers at the same instant: %d of %d transactions did not reach the processor exactly once, %d were not saved exactly as often as they are relevant", twice, rounds, savedWrong)
+	}
+	return ""
+}
+
 func txmcMain(args []string) int {
 	fs := flag.NewFlagSet("txmc", flag.ExitOnError)
 	seed := fs.Int64("seed", 1, "seed")
@@ -468,7 +529,11 @@ func txmcMain(args []string) int {
 				problems[m]++
 			}
 		}
-		json.NewEncoder(os.Stdout).Encode(map[string]interface{}{"scenarios": *backlog, "problems": problems})
+		rounds := 400 * *backlog
+		if m := txmSimultaneous(*seed, rounds); m != "" {
+			problems[m]++
+		}
+		json.NewEncoder(os.Stdout).Encode(map[string]interface{}{"scenarios": *backlog, "simultaneous_rounds": rounds, "problems": problems})
 		return 0
 	}
 	rng := rand.New(rand.NewSource(*seed))
